@@ -1,6 +1,8 @@
 import LyModel.Valid.SpecDefaults
 import LyModel.Valid.Hist
 import LyModel.Valid.Ops
+import LyModel.Valid.ValApply
+import LyModel.Valid.LemmasCompletionObs
 /-! driver ops of component `valid` (C02, C07): see harness/api_val.c and harness/api_norm.c for the protocol -/
 namespace LyModel.Valid.Drv
 open LyModel LyModel.Tree
@@ -37,6 +39,26 @@ def handle (op : String) (args : List String) : String :=
     withX dsl xdsl fun X =>
       match opts.toNat?, steps.mapM (parseStep X.base) with
       | some on, some sts => "ok" ++ String.join ((runHist X (VOpts.ofNat on) sts 0 0 []).map (" " ++ ·))
+      | _, _ => "err BadStep"
+  | "histlaw", dsl :: xdsl :: opts :: fx :: steps =>
+    -- the laws of C07 along a history, as harness/api_norm.c `histlaw` evaluates them on libyang; `fx` = `fx=120,126` the repairs of
+    -- lyd_diff_apply_all present in the tree under test; plus `sh<i>` = the hypotheses of `valdiff_exact_partial` on that input
+    withX dsl xdsl fun X =>
+      match opts.toNat?, steps.mapM (parseStep X.base) with
+      | some on, some sts =>
+        let l := ((fx.drop 3).toString.splitOn ",")
+        let f : Diff.Fixes := { f120 := l.contains "120", f126 := l.contains "126", f128 := l.contains "128" }
+        let o := VOpts.ofNat on
+        -- hypotheses and statements of Props/C07Completion.lean on the input of every validation: `implicit_exact_tree_nochoice` (hyp, statement),
+        -- `implicit_exact_tree_explicit` (hyp, statement)
+        let extra := fun (t : List DNode) =>
+          let T := (validate X o t).tree
+          lawBit (dataSchemaB X && !o.noState && freshExplL t && placedL X X.top t && shapedL X.base t && decide (sheightL X.top ≤ walkFuel X t)
+            && !(o.present && t.isEmpty))
+          ++ lawBit (beqL (obsL X.base T) (obsL X.base (rfcComplete X o t)))
+          ++ lawBit (okBelowB X && freshExplL t && npFullL X.base t && !(o.present && t.isEmpty))
+          ++ lawBit (beqL (explicitPart T) (explicitPart t))
+        "ok" ++ String.join ((runLaw X o f extra sts 0 0 []).map (" " ++ ·))
       | _, _ => "err BadStep"
   | "rfcdefaults", [dsl, xdsl, opts, dump] =>
     -- the explicit part of the tree completed with the default nodes the RFCs put in use (model only); flags of the input kept
